@@ -847,8 +847,8 @@ impl<'a> ParseState<'a, &'a str> {
             (self.starts_with) => (_);
             // 固定
             self.format.sentence.stamp_fixed => {
-                // 跳过自身
-                self.head_skip(self.format.sentence.stamp_fixed);
+                // 跳过自身（及其后的空白：时间戳内的空白与真值、预算值内的一样可有可无）
+                self.head_skip_and_spaces(self.format.sentence.stamp_fixed);
                 // 解析&跳过 整数值
                 let time = self.parse_isize()?;
                 // 生成时间戳
